@@ -7,9 +7,6 @@ the state `replayD fmt op {}` hold the operation's own lists.
 namespace Xdsl.DeclFormat
 set_option linter.unusedSimpArgs false
 
-inductive Fam | operands | operandTys | resultTys | regions | succs
-  deriving DecidableEq
-
 def getF : Fam → PState → AL Nat (List Nat)
   | .operands, st => st.operands
   | .operandTys, st => st.operandTys
@@ -33,13 +30,54 @@ def dirSlot : SDir → Option (Fam × Nat)
   | .succ i _ => some (.succs, i)
   | _ => none
 
-theorem getF_replayS (D : Defs) (op : OpInst) (d : SDir) (st : PState) (fam : Fam) :
+theorem getF_replayS (D : Defs) (op : OpInst) (d : SDir) (st : PState) (fam : Fam)
+    (hfrag : inFragment d = true) :
     getF fam (replayS D op d st) =
       match dirSlot d with
       | some (fam', i) => if fam' = fam then AL.set (getF fam st) i (seg (opF fam op) i) else getF fam st
       | none => getF fam st := by
-  cases d <;> cases fam <;> simp [replayS, dirSlot, getF, opF, dictState, setDict]
+  cases d <;> first | (simp [inFragment] at hfrag; done) | skip
+  all_goals (cases fam <;> simp [replayS, dirSlot, getF, opF, dictState, setDict])
   all_goals (first | rfl | (split <;> (try split) <;> (try split) <;> rfl) | skip)
+
+/-! ### maps that hold the operation's own segments -/
+
+def AgreeM (segs : List (List Nat)) (m : AL Nat (List Nat)) : Prop :=
+  ∀ i xs, AL.get m i = some xs → xs = seg segs i
+
+theorem get_foldl_set (l : List Nat) (m : AL Nat (List Nat)) (f : Nat → List Nat) (i : Nat) :
+    AL.get (l.foldl (fun m j => AL.set m j (f j)) m) i = if i ∈ l then some (f i) else AL.get m i := by
+  induction l generalizing m with
+  | nil => simp
+  | cons a l ih =>
+    simp only [List.foldl_cons, ih, AL.get_set, List.mem_cons]
+    by_cases h1 : i ∈ l
+    · simp [h1]
+    · by_cases h2 : i = a
+      · subst h2; simp [h1]
+      · simp [h1, h2]
+
+theorem get_setAll (m : AL Nat (List Nat)) (segs : List (List Nat)) (i : Nat) :
+    AL.get (setAll m segs) i = if i < segs.length then some (seg segs i) else AL.get m i := by
+  unfold setAll
+  rw [get_foldl_set]
+  simp [seg]
+
+theorem agreeM_set {segs : List (List Nat)} {m : AL Nat (List Nat)} (j : Nat) (h : AgreeM segs m) :
+    AgreeM segs (AL.set m j (seg segs j)) := by
+  intro i xs hx
+  rw [AL.get_set] at hx
+  by_cases hij : i = j
+  · subst hij; simp at hx; exact hx.symm
+  · simp [hij] at hx; exact h i xs hx
+
+theorem agreeM_setAll {segs : List (List Nat)} {m : AL Nat (List Nat)} (h : AgreeM segs m) :
+    AgreeM segs (setAll m segs) := by
+  intro i xs hx
+  rw [get_setAll] at hx
+  by_cases hi : i < segs.length
+  · simp [hi] at hx; exact hx.symm
+  · simp [hi] at hx; exact h i xs hx
 
 
 def emptyVal : SDir → List Nat
@@ -75,22 +113,41 @@ theorem getF_setEmptyS (d : SDir) (st : PState) (fam : Fam) (hfrag : inFragment 
 def AgreeF (fam : Fam) (op : OpInst) (st : PState) : Prop :=
   ∀ i xs, AL.get (getF fam st) i = some xs → xs = seg (opF fam op) i
 
+theorem agreeF_iff (fam : Fam) (op : OpInst) (st : PState) :
+    AgreeF fam op st ↔ AgreeM (opF fam op) (getF fam st) := Iff.rfl
+
+theorem agreeF_replayTy (op : OpInst) (r : TyRef) (st : PState) (fam : Fam)
+    (h : AgreeF fam op st) : AgreeF fam op (replayTy op r st) := by
+  cases r <;> cases fam <;>
+    first
+    | exact h
+    | exact agreeM_set (segs := op.operandTys) _ h
+    | exact agreeM_set (segs := op.resultTys) _ h
+    | exact agreeM_setAll (segs := op.operandTys) h
+    | exact agreeM_setAll (segs := op.resultTys) h
+
 theorem agreeF_replayS (D : Defs) (op : OpInst) (d : SDir) (st : PState) (fam : Fam)
     (h : AgreeF fam op st) : AgreeF fam op (replayS D op d st) := by
-  intro i xs hx
-  rw [getF_replayS] at hx
-  cases hs : dirSlot d with
-  | none => rw [hs] at hx; exact h i xs hx
-  | some p =>
-    obtain ⟨fam', j⟩ := p
-    rw [hs] at hx
-    simp only at hx
-    by_cases hf : fam' = fam
-    · simp only [hf, if_true, AL.get_set] at hx
-      by_cases hij : i = j
-      · subst hij; simp at hx; exact hx.symm
-      · simp [hij] at hx; exact h i xs hx
-    · simp only [hf, if_false] at hx; exact h i xs hx
+  by_cases hfrag : inFragment d = true
+  · intro i xs hx
+    rw [getF_replayS D op d st fam hfrag] at hx
+    cases hs : dirSlot d with
+    | none => rw [hs] at hx; exact h i xs hx
+    | some p =>
+      obtain ⟨fam', j⟩ := p
+      rw [hs] at hx
+      simp only at hx
+      by_cases hf : fam' = fam
+      · simp only [hf, if_true, AL.get_set] at hx
+        by_cases hij : i = j
+        · subst hij; simp at hx; exact hx.symm
+        · simp [hij] at hx; exact h i xs hx
+      · simp only [hf, if_false] at hx; exact h i xs hx
+  · cases d <;> first | (simp [inFragment] at hfrag; done) | skip
+    · cases fam <;> first | exact h | exact agreeM_setAll (segs := op.operands) h
+    · cases fam <;> first | exact h | exact agreeM_setAll (segs := op.operandTys) h
+    · cases fam <;> first | exact h | exact agreeM_setAll (segs := op.resultTys) h
+    · exact agreeF_replayTy op _ _ fam (agreeF_replayTy op _ _ fam h)
 
 theorem emptyVal_eq_of_emptyS (op : OpInst) (d : SDir) (fam : Fam) (i : Nat)
     (hs : emptySlot d = some (fam, i)) (he : emptyS op d) : emptyVal d = seg (opF fam op) i := by
@@ -148,15 +205,14 @@ theorem agreeF_setEmptySeq (op : OpInst) (ds : List SDir) (st : PState) (fam : F
       (agreeF_setEmptyS op d st fam (hfrag d (List.mem_cons_self ..)) (he d (List.mem_cons_self ..)) h)
 
 theorem agreeF_replayD (D : Defs) (op : OpInst) (fmt : List Dir) (st : PState) (fam : Fam)
-    (hfrag : fragD fmt = true) (hv : ValidD op fmt) (h : AgreeF fam op st) :
+    (hfrag : fragD fmt = true) (hv : ValidD D op fmt) (h : AgreeF fam op st) :
     AgreeF fam op (replayD D op fmt st) := by
   induction fmt generalizing st with
   | nil => exact h
   | cons d ds ih =>
     cases d with
     | s d =>
-      simp only [fragD, Bool.and_eq_true] at hfrag
-      exact ih _ hfrag.2 hv.2 (agreeF_replayS D op d st fam h)
+      exact ih _ hfrag hv.2 (agreeF_replayS D op d st fam h)
     | group a f r e =>
       simp only [fragD, Bool.and_eq_true] at hfrag
       obtain ⟨⟨⟨hf1, hf2⟩, hf3⟩, hf4⟩ := hfrag
@@ -186,25 +242,86 @@ theorem wfD_tail' {d : Dir} {ds : List Dir} {K : List Cls} (h : wfD (d :: ds) K 
 
 def SetF (fam : Fam) (i : Nat) (st : PState) : Prop := (AL.get (getF fam st) i).isSome = true
 
+theorem setM_set_mono {m : AL Nat (List Nat)} (i j : Nat) (v : List Nat)
+    (h : (AL.get m i).isSome = true) : (AL.get (AL.set m j v) i).isSome = true := by
+  rw [AL.get_set]; by_cases hij : i = j <;> simp [hij, h]
+
+theorem setM_setAll_mono {m : AL Nat (List Nat)} (i : Nat) (segs : List (List Nat))
+    (h : (AL.get m i).isSome = true) : (AL.get (setAll m segs) i).isSome = true := by
+  rw [get_setAll]; by_cases hi : i < segs.length <;> simp [hi, h]
+
+theorem setM_setAll_hit {m : AL Nat (List Nat)} (i : Nat) (segs : List (List Nat))
+    (hi : i < segs.length) : (AL.get (setAll m segs) i).isSome = true := by
+  rw [get_setAll]; simp [hi]
+
+theorem setF_replayTy_mono (op : OpInst) (r : TyRef) (st : PState) (fam : Fam) (i : Nat)
+    (h : SetF fam i st) : SetF fam i (replayTy op r st) := by
+  cases r <;> cases fam <;>
+    first
+    | exact h
+    | exact setM_set_mono _ _ _ h
+    | exact setM_setAll_mono _ _ h
+
+theorem pos_ite {a b : Nat} (h : 0 < if a = b then 1 else 0) : a = b := by
+  by_cases e : a = b
+  · exact e
+  · simp [e] at h
+
+theorem setF_replayTy_hit (op : OpInst) (r : TyRef) (st : PState) (fam : Fam) (i : Nat)
+    (hb : tyRefBindN fam i r > 0) (hi : i < (opF fam op).length) : SetF fam i (replayTy op r st) := by
+  cases r <;> cases fam <;> simp [tyRefBindN] at hb
+  · exact setM_setAll_hit _ _ hi
+  · exact setM_setAll_hit _ _ hi
+  · have e := pos_ite hb; subst e; unfold SetF; simp [replayTy, getF, AL.get_set]
+  · have e := pos_ite hb; subst e; unfold SetF; simp [replayTy, getF, AL.get_set]
+
 theorem setF_replayS_mono (D : Defs) (op : OpInst) (d : SDir) (st : PState) (fam : Fam) (i : Nat)
     (h : SetF fam i st) : SetF fam i (replayS D op d st) := by
-  unfold SetF at *
-  rw [getF_replayS]
-  cases hs : dirSlot d with
-  | none => exact h
-  | some p =>
-    obtain ⟨fam', j⟩ := p
-    simp only
-    by_cases hf : fam' = fam
-    · simp only [hf, if_true, AL.get_set]
-      by_cases hij : i = j <;> simp [hij, h]
-    · simp only [hf, if_false]; exact h
+  by_cases hfrag : inFragment d = true
+  · unfold SetF at *
+    rw [getF_replayS D op d st fam hfrag]
+    cases hs : dirSlot d with
+    | none => exact h
+    | some p =>
+      obtain ⟨fam', j⟩ := p
+      simp only
+      by_cases hf : fam' = fam
+      · simp only [hf, if_true, AL.get_set]
+        by_cases hij : i = j <;> simp [hij, h]
+      · simp only [hf, if_false]; exact h
+  · cases d <;> first | (simp [inFragment] at hfrag; done) | skip
+    · cases fam <;> first | exact h | exact setM_setAll_mono _ _ h
+    · cases fam <;> first | exact h | exact setM_setAll_mono _ _ h
+    · cases fam <;> first | exact h | exact setM_setAll_mono _ _ h
+    · exact setF_replayTy_mono op _ _ fam i (setF_replayTy_mono op _ _ fam i h)
+
+def bindsS (fam : Fam) (i : Nat) (d : SDir) : Bool := decide (bindN fam i d > 0)
+
+theorem bindsS_frag {fam : Fam} {i : Nat} {d : SDir} (hfrag : inFragment d = true)
+    (hb : bindsS fam i d = true) : dirSlot d = some (fam, i) := by
+  cases d <;> first | (simp [inFragment] at hfrag; done) | skip
+  all_goals (cases fam <;> simp_all [bindsS, bindN, dirSlot])
+  all_goals exact pos_ite hb
 
 theorem setF_replayS_hit (D : Defs) (op : OpInst) (d : SDir) (st : PState) (fam : Fam) (i : Nat)
-    (hs : dirSlot d = some (fam, i)) : SetF fam i (replayS D op d st) := by
-  unfold SetF
-  rw [getF_replayS, hs]
-  simp [AL.get_set]
+    (hb : bindsS fam i d = true) (hi : i < (opF fam op).length) : SetF fam i (replayS D op d st) := by
+  by_cases hfrag : inFragment d = true
+  · have hs := bindsS_frag hfrag hb
+    unfold SetF
+    rw [getF_replayS D op d st fam hfrag, hs]
+    simp [AL.get_set]
+  · cases d <;> first | (simp [inFragment] at hfrag; done) | skip
+    · cases fam <;> simp [bindsS, bindN] at hb
+      exact setM_setAll_hit _ _ hi
+    · cases fam <;> simp [bindsS, bindN] at hb
+      exact setM_setAll_hit _ _ hi
+    · cases fam <;> simp [bindsS, bindN] at hb
+      exact setM_setAll_hit _ _ hi
+    · rename_i ins outs
+      have hb' : tyRefBindN fam i ins + tyRefBindN fam i outs > 0 := by simpa [bindsS, bindN] using hb
+      by_cases h1 : tyRefBindN fam i outs > 0
+      · exact setF_replayTy_hit op outs _ fam i h1 hi
+      · exact setF_replayTy_mono op outs _ fam i (setF_replayTy_hit op ins st fam i (by omega) hi)
 
 theorem setF_setEmptyS_mono (d : SDir) (st : PState) (fam : Fam) (i : Nat) (hfrag : inFragment d = true)
     (h : SetF fam i st) : SetF fam i (setEmptyS st d) := by
@@ -232,15 +349,23 @@ theorem setF_replaySeq_mono (D : Defs) (op : OpInst) (ds : List SDir) (st : PSta
   | nil => exact h
   | cons d ds ih => exact ih _ (setF_replayS_mono D op d st fam i h)
 
+theorem setF_replayS_slot (D : Defs) (op : OpInst) (d : SDir) (st : PState) (fam : Fam) (i : Nat)
+    (hfrag : inFragment d = true) (hs : dirSlot d = some (fam, i)) : SetF fam i (replayS D op d st) := by
+  unfold SetF
+  rw [getF_replayS D op d st fam hfrag, hs]
+  simp [AL.get_set]
+
 theorem setF_replaySeq_hit (D : Defs) (op : OpInst) (ds : List SDir) (st : PState) (fam : Fam) (i : Nat)
+    (hfrag : ∀ d ∈ ds, inFragment d = true)
     (h : ∃ d ∈ ds, dirSlot d = some (fam, i)) : SetF fam i (replaySeq D op ds st) := by
   induction ds generalizing st with
   | nil => obtain ⟨d, hd, _⟩ := h; cases hd
   | cons d ds ih =>
     obtain ⟨x, hx, hs⟩ := h
     rcases List.mem_cons.mp hx with rfl | hx'
-    · exact setF_replaySeq_mono D op ds _ fam i (setF_replayS_hit D op x st fam i hs)
-    · exact ih _ ⟨x, hx', hs⟩
+    · exact setF_replaySeq_mono D op ds _ fam i
+        (setF_replayS_slot D op x st fam i (hfrag x (List.mem_cons_self ..)) hs)
+    · exact ih _ (fun y hy => hfrag y (List.mem_cons_of_mem _ hy)) ⟨x, hx', hs⟩
 
 theorem setF_setEmptySeq_mono (ds : List SDir) (st : PState) (fam : Fam) (i : Nat)
     (hfrag : ∀ d ∈ ds, inFragment d = true) (h : SetF fam i st) : SetF fam i (setEmptySeq st ds) := by
@@ -273,8 +398,6 @@ theorem emptySlot_of_okInGroup (d : SDir) (p : Fam × Nat) (hg : okInGroup d = t
   | succ i k => cases k <;> simp_all [okInGroup, kindNullable, dirSlot, emptySlot]
   | _ => simp [dirSlot] at hs
 
-def bindsS (fam : Fam) (i : Nat) (d : SDir) : Bool := dirSlot d == some (fam, i)
-
 /-- some directive of the format (at top level or inside a group) writes slot `(fam, i)` -/
 def bindsD (fam : Fam) (i : Nat) : List Dir → Bool
   | [] => false
@@ -288,8 +411,7 @@ theorem setF_replayD_mono (D : Defs) (op : OpInst) (fmt : List Dir) (st : PState
   | cons d ds ih =>
     cases d with
     | s d =>
-      simp only [fragD, Bool.and_eq_true] at hfrag
-      exact ih _ hfrag.2 (setF_replayS_mono D op d st fam i h)
+      exact ih _ hfrag (setF_replayS_mono D op d st fam i h)
     | group a f r e =>
       simp only [fragD, Bool.and_eq_true] at hfrag
       obtain ⟨⟨⟨hf1, hf2⟩, hf3⟩, hf4⟩ := hfrag
@@ -300,25 +422,26 @@ theorem setF_replayD_mono (D : Defs) (op : OpInst) (fmt : List Dir) (st : PState
       · exact setF_replaySeq_mono D op e _ fam i
           (setF_setEmptySeq_mono r _ fam i (fun x hx => mem_all hf2 hx) (setF_replayS_mono D op f st fam i h))
 
-theorem any_bindsS {fam : Fam} {i : Nat} {ds : List SDir} (h : ds.any (bindsS fam i) = true) :
+theorem any_bindsS {fam : Fam} {i : Nat} {ds : List SDir} (hfrag : ∀ d ∈ ds, inFragment d = true)
+    (h : ds.any (bindsS fam i) = true) :
     ∃ d ∈ ds, dirSlot d = some (fam, i) := by
   obtain ⟨d, hd, hb⟩ := List.any_eq_true.mp h
-  exact ⟨d, hd, by simpa [bindsS] using hb⟩
+  exact ⟨d, hd, bindsS_frag (hfrag d hd) hb⟩
 
 theorem setF_replayD (D : Defs) (op : OpInst) (fmt : List Dir) (K : List Cls) (st : PState) (fam : Fam) (i : Nat)
-    (hwf : wfD fmt K = true) (hfrag : fragD fmt = true) (hb : bindsD fam i fmt = true) :
+    (hwf : wfD fmt K = true) (hfrag : fragD fmt = true) (hb : bindsD fam i fmt = true)
+    (hi : i < (opF fam op).length) :
     SetF fam i (replayD D op fmt st) := by
   induction fmt generalizing st with
   | nil => simp [bindsD] at hb
   | cons d ds ih =>
     cases d with
     | s d =>
-      simp only [fragD, Bool.and_eq_true] at hfrag
       simp only [bindsD, Bool.or_eq_true] at hb
       rcases hb with hb | hb
-      · exact setF_replayD_mono D op ds _ fam i hfrag.2
-          (setF_replayS_hit D op d st fam i (by simpa [bindsS] using hb))
-      · exact ih _ (wfD_tail' hwf) hfrag.2 hb
+      · exact setF_replayD_mono D op ds _ fam i hfrag
+          (setF_replayS_hit D op d st fam i hb hi)
+      · exact ih _ (wfD_tail' hwf) hfrag hb
     | group a f r e =>
       simp only [fragD, Bool.and_eq_true] at hfrag
       obtain ⟨⟨⟨hf1, hf2⟩, hf3⟩, hf4⟩ := hfrag
@@ -332,19 +455,20 @@ theorem setF_replayD (D : Defs) (op : OpInst) (fmt : List Dir) (K : List Cls) (s
       simp only [bindsD, Bool.or_eq_true] at hb
       rcases hb with (hb | hb) | hb
       · -- bound in the then-branch
-        obtain ⟨x, hx, hs⟩ := any_bindsS hb
+        obtain ⟨x, hx, hs⟩ := any_bindsS hfT hb
         refine setF_replayD_mono D op ds _ fam i hf4 ?_
         simp only [replayDir]
         split
         · exact setF_setEmptySeq_mono e _ fam i (fun y hy => mem_all hf3 hy)
-            (setF_replaySeq_hit D op (f :: r) st fam i ⟨x, hx, hs⟩)
+            (setF_replaySeq_hit D op (f :: r) st fam i hfT ⟨x, hx, hs⟩)
         · refine setF_replaySeq_mono D op e _ fam i ?_
           rcases List.mem_cons.mp hx with rfl | hx'
-          · exact setF_setEmptySeq_mono r _ fam i (fun y hy => mem_all hf2 hy) (setF_replayS_hit D op x st fam i hs)
+          · exact setF_setEmptySeq_mono r _ fam i (fun y hy => mem_all hf2 hy)
+              (setF_replayS_slot D op x st fam i hf1 hs)
           · exact setF_setEmptySeq_hit r _ fam i (fun y hy => mem_all hf2 hy)
               ⟨x, hx', emptySlot_of_okInGroup x _ (mem_all hing (List.mem_cons_of_mem _ hx')) hs⟩
       · -- bound in the else-branch
-        obtain ⟨x, hx, hs⟩ := any_bindsS hb
+        obtain ⟨x, hx, hs⟩ := any_bindsS (fun y hy => mem_all hf3 hy) hb
         refine setF_replayD_mono D op ds _ fam i hf4 ?_
         simp only [replayDir]
         split
@@ -353,7 +477,7 @@ theorem setF_replayD (D : Defs) (op : OpInst) (fmt : List Dir) (K : List Cls) (s
             simp only [Bool.and_eq_true] at this
             exact this.1
           exact setF_setEmptySeq_hit e _ fam i (fun y hy => mem_all hf3 hy) ⟨x, hx, emptySlot_of_okInGroup x _ hxg hs⟩
-        · exact setF_replaySeq_hit D op e _ fam i ⟨x, hx, hs⟩
+        · exact setF_replaySeq_hit D op e _ fam i (fun y hy => mem_all hf3 hy) ⟨x, hx, hs⟩
       · exact ih _ hwfds hf4 hb
 
 end Xdsl.DeclFormat
